@@ -2,6 +2,7 @@ import LettreVerif.Proofs.HeaderReader
 import LettreVerif.Proofs.Headers
 import LettreVerif.Proofs.DkimSig
 import LettreVerif.Proofs.MailboxEnc
+import LettreVerif.Proofs.Wire
 /-!
 # C02 — Header section is well-formed and injection-proof for any supplied text
 
@@ -120,6 +121,15 @@ theorem mailbox_header_wf (nameLen : Nat) (ms : List (Option Bytes × Bytes))
     (hm : ∀ m ∈ ms, (∀ n, m.1 = some n → HeaderEnc.ContRunsLe3 n) ∧ HeaderEnc.Plain m.2) :
     HeaderEnc.scan .norm (MailboxEnc.headerValue nameLen ms) = some .norm :=
   MailboxEnc.mailboxHeader_wf nameLen ms hm
+
+/-- **No file name can break a Content-Disposition header.** For every file name (any Rust string of less than 10^20
+    octets: quotes, backslashes, CR, LF, CRLF + an injected field, NUL, non-ASCII) and every printable `kind`, the value
+    written by `ContentDisposition::with_name` (`Model/Rfc2231Enc.lean`, compared octet for octet with the code) has no
+    bare CR or LF, every CRLF is followed by a space, every other octet is HTAB or printable ASCII, and it does not end
+    inside a line break. -/
+theorem content_disposition_wf (kind name : Bytes) (hk : HeaderEnc.Plain kind) (hn : name.length < 10 ^ 20) :
+    HeaderEnc.scan .norm (Rfc2231Enc.cdispValue kind name) = some .norm :=
+  Rfc2231Enc.cdisp_wf kind name hk hn
 
 /-- **A list of bare addresses is folded within the limits, however long.** For every list of addresses (printable ASCII
     without spaces, each at most 75 octets, the first one fitting after the field name) every line of the header that
